@@ -155,7 +155,7 @@ func c02SentBeforeBuffered(c *Ctx) {
 				c.Check(it.IsZero(), rule, cb, "sent-then-buffered", b.Instr(),
 					"retry of the sent set precedes the retry of the buffered messages on every path",
 					"buffered messages are re-queued before (or without) the sent set: FIFO retry queue then reorders them", path)
-				it2, path2 := reg.MustPrecede(bounce, IsItem(b))
+				it2, path2 := reg.MustPrecede(p.Lifted(bounce), IsItem(b))
 				c.Check(it2.IsZero(), rule, cb, "bounce-state", b.Instr(),
 					"currentRetries[topic][partition] is set before the partition's messages are bounced",
 					"partition is retried without marking it in currentRetries: later arrivals are sent ahead of the retried ones", path2)
@@ -165,31 +165,60 @@ func c02SentBeforeBuffered(c *Ctx) {
 	he := c.NeedFn(rule, "brokerProducer.handleError")
 	if he != nil {
 		reg := WholeFn(he)
-		retrying := func(recv VM) Ev {
-			return func(it Item) bool {
-				cc, ok := callCommon(it)
-				if !ok || p.CalleeName(cc) != "produceSet.eachPartition" || len(cc.Args) < 2 || !recv(cc.Args[0]) {
-					return false
-				}
-				cb := p.FuncOfValue(cc.Args[1])
-				return cb != nil && hasItem(cb, p.CallTo("asyncProducer.retryMessages"))
+		retries := func(sw sweep) bool { return sw.cb != nil && hasItem(sw.cb, p.CallTo("asyncProducer.retryMessages")) }
+		sentParam := ParamN(1)
+		isBuf := FieldLoad("brokerProducer.buffer")
+		var sentSw, bufSw []sweep
+		for _, sw := range p.sweepsOf(he) {
+			if !retries(sw) {
+				continue
+			}
+			if sentParam(sw.recv) {
+				sentSw = append(sentSw, sw)
+			}
+			if isBuf(sw.recv) {
+				bufSw = append(bufSw, sw)
 			}
 		}
-		sentParam := ParamN(1)
-		sent := retrying(sentParam)
-		buffered := retrying(FieldLoad("brokerProducer.buffer"))
 		closing := StoreTo(nil, "brokerProducer.closing")
-		bs := reg.Find(buffered)
-		if len(bs) == 0 {
+		if len(bufSw) == 0 {
 			c.Fail(rule, he, "buffered-retry", nil, "handleError does not retry the buffered messages together with the sent set", nil)
 		}
-		for _, b := range bs {
-			it, path := reg.MustPrecede(sent, IsItem(b))
-			c.Check(it.IsZero(), rule, he, "sent-then-buffered", b.Instr(),
+		for _, b := range bufSw {
+			// the sent set's retry precedes: an earlier element of the same literal loop, or an earlier call on every path
+			ok := false
+			var path []*ssa.BasicBlock
+			for _, s := range sentSw {
+				if s.call == b.call && s.idx < b.idx {
+					ok = true
+				}
+			}
+			if !ok {
+				var others []Item
+				for _, s := range sentSw {
+					if s.call != b.call {
+						others = append(others, s.call)
+					}
+				}
+				if len(others) > 0 {
+					isSent := func(it Item) bool {
+						for _, o := range others {
+							if IsItem(o)(it) {
+								return true
+							}
+						}
+						return false
+					}
+					var it Item
+					it, path = reg.MustPrecede(isSent, IsItem(b.call))
+					ok = it.IsZero()
+				}
+			}
+			c.Check(ok, rule, he, "sent-then-buffered", b.call.Instr(),
 				"retry of the sent set precedes the retry of the buffered set on every path",
-				"buffered set re-queued before the sent set", path)
-			it2, path2 := reg.MustPrecede(closing, IsItem(b))
-			c.Check(it2.IsZero(), rule, he, "bounce-state", b.Instr(),
+				"buffered set re-queued before the sent set: the FIFO retry queue then holds later messages ahead of earlier ones", path)
+			it2, path2 := reg.MustPrecede(closing, IsItem(b.call))
+			c.Check(it2.IsZero(), rule, he, "bounce-state", b.call.Instr(),
 				"bp.closing is set before messages are bounced",
 				"messages are bounced without setting bp.closing: later arrivals are sent on the dead connection ahead of them", path2)
 		}
